@@ -249,9 +249,7 @@ func (f changeFinder) walkSlice(from, to *value) bool {
 		return equal
 	}
 
-	es := diff.Difference(from.Len(), to.Len(), func(i, j int) diff.Result {
-		return compareNodes(from.Children[i], to.Children[j])
-	})
+	es := diff.Difference(from.Len(), to.Len(), pairComparer(from, to))
 
 	regions := make([]Region, from.Len())
 	for i, n := range from.Children {
@@ -321,6 +319,26 @@ func (f changeFinder) walkSlice(from, to *value) bool {
 	return equal
 }
 
+// pairComparer returns a function comparing the i-th child of from with the
+// j-th child of to. diff.Difference asks about the same pair several times
+// (while searching and again while connecting the path); since comparing two
+// nodes compares their children the same way, answering each question anew
+// made the cost double with every level of nesting. Every pair is compared
+// once.
+func pairComparer(from, to *value) diff.EqualFunc {
+	type pair struct{ i, j int }
+	seen := make(map[pair]diff.Result)
+	return func(i, j int) diff.Result {
+		k := pair{i, j}
+		r, ok := seen[k]
+		if !ok {
+			r = compareNodes(from.Children[i], to.Children[j])
+			seen[k] = r
+		}
+		return r
+	}
+}
+
 type nodeComparer struct{ diff.Result }
 
 func compareNodes(from, to *value) diff.Result {
@@ -363,22 +381,14 @@ func (c *nodeComparer) Walk(from, to *value) {
 		}
 
 	case reflect.Slice:
-		results := make([][]diff.Result, from.Len())
-		for i := range results {
-			results[i] = make([]diff.Result, to.Len())
-		}
-
-		es := diff.Difference(from.Len(), to.Len(), func(i, j int) diff.Result {
-			result := compareNodes(from.Children[i], to.Children[j])
-			results[i][j] = result
-			return result
-		})
+		compare := pairComparer(from, to)
+		es := diff.Difference(from.Len(), to.Len(), compare)
 
 		var i, j int
 		for _, e := range es {
 			switch e {
 			case diff.Identity, diff.Modified:
-				result := results[i][j]
+				result := compare(i, j)
 				c.NumDiff += result.NumDiff
 				c.NumSame += result.NumSame
 				i++
